@@ -163,6 +163,9 @@ theorem track_keeps_cfg (p : Params) (pre : List Rec) (r : Rec) (blk : Nat)
     simp only [apply]
     cases st.blocks blk <;> simp [markStale]
   | probe t b o => rfl
+  | late t d =>
+    simp only [apply]
+    cases st.blocks blk <;> simp [markLate]
 
 /-- **accepted_trace_correct**: in an accepted trace, an output observed at instant `t` when no
     clock jump is pending for the block (`stale = none`, or its deadline has passed) and no
@@ -208,13 +211,15 @@ theorem accepted_trace_correct (p : Params) (hcal : CalMono p.cal) (pre post : L
   · exact pred_const p.cal hcal b.cfg b.last t (by omega)
       (boundaryIn_mono p.cal hcal b.cfg (t - p.lam) b.last t t (by omega) (Nat.le_refl _) hfar)
 
-/-- **jump_recovery**: once `bound` has passed since the latest forward clock jump arrived, every
-    observed output (not within `lam` after a boundary) is the calendar predicate again -/
+/-- **jump_recovery**: once the grace period has ended – `bound` after the arrival of the latest forward
+    clock jump, `delta + lam` after an injected delay of `delta` (see `jump_recovery_trace`,
+    `injected_delay_trace`) – every observed output (not within `lam` after a boundary) is the
+    calendar predicate again -/
 theorem jump_recovery (p : Params) (hcal : CalMono p.cal) (pre post : List Rec)
     (t blk : Nat) (out : Bool) (b : BState)
     (hacc : accepts p (pre ++ .probe t blk out :: post) = true)
     (hb : (track p pre).blocks blk = some b)
-    (hlate : (track p pre).lastJump + p.bound < t)
+    (hlate : (track p pre).graceEnd < t)
     (hfar : boundaryIn p.cal b.cfg (t - p.lam) t = false) :
     out = pred p.cal b.cfg t := by
   obtain ⟨hinv, _⟩ := probe_facts p pre post t blk out hacc
@@ -223,8 +228,8 @@ theorem jump_recovery (p : Params) (hcal : CalMono p.cal) (pre post : List Rec)
   have := hinv.dl_le blk b dl hb hs
   omega
 
-/-- the same, read off the trace: a clock jump of `d` at `tj`, then no further jump; every probe
-    later than `tj + d + bound` is correct -/
+/-- the same, read off the trace: a clock jump of `d` at `tj`, then no further jump or injected delay;
+    every probe later than `tj + d + bound` is correct -/
 theorem jump_recovery_trace (p : Params) (hcal : CalMono p.cal) (pre mid post : List Rec)
     (tj d t blk : Nat) (out : Bool) (b : BState)
     (hacc : accepts p (pre ++ .jump tj d :: (mid ++ .probe t blk out :: post)) = true)
@@ -237,10 +242,33 @@ theorem jump_recovery_trace (p : Params) (hcal : CalMono p.cal) (pre mid post : 
       = (pre ++ .jump tj d :: mid) ++ .probe t blk out :: post := by simp
   rw [e] at hacc
   apply jump_recovery p hcal _ post t blk out b hacc hb _ hfar
-  have : (track p (pre ++ .jump tj d :: mid)).lastJump = tj + d := by
+  have : (track p (pre ++ .jump tj d :: mid)).graceEnd = tj + d + p.bound := by
     simp only [track, List.foldl_append, List.foldl_cons]
-    rw [lastJump_foldl p mid _ hmid]
+    rw [graceEnd_foldl p mid _ hmid]
     rfl
+  omega
+
+/-- an injected delay excuses nothing beyond its own window: wake-up callbacks due at `tl` run `dl` µs
+    late (no clock jump pending before: `graceEnd ≤ tl + dl + lam`), then no jump and no further delay;
+    every probe later than `tl + dl + lam` is correct -/
+theorem injected_delay_trace (p : Params) (hcal : CalMono p.cal) (pre mid post : List Rec)
+    (tl dl t blk : Nat) (out : Bool) (b : BState)
+    (hacc : accepts p (pre ++ .late tl dl :: (mid ++ .probe t blk out :: post)) = true)
+    (hpre : (track p pre).graceEnd ≤ tl + dl + p.lam)
+    (hmid : ∀ r ∈ mid, r.isJump = false)
+    (hb : (track p (pre ++ .late tl dl :: mid)).blocks blk = some b)
+    (hlate : tl + dl + p.lam < t)
+    (hfar : boundaryIn p.cal b.cfg (t - p.lam) t = false) :
+    out = pred p.cal b.cfg t := by
+  have e : pre ++ .late tl dl :: (mid ++ .probe t blk out :: post)
+      = (pre ++ .late tl dl :: mid) ++ .probe t blk out :: post := by simp
+  rw [e] at hacc
+  apply jump_recovery p hcal _ post t blk out b hacc hb _ hfar
+  have : (track p (pre ++ .late tl dl :: mid)).graceEnd = tl + dl + p.lam := by
+    simp only [track, List.foldl_append, List.foldl_cons]
+    rw [graceEnd_foldl p mid _ hmid]
+    simp only [track] at hpre
+    simp [apply, hpre]
   omega
 
 /-- a block is never left unrecalculated for longer than `bound` after a jump while one of its
@@ -336,6 +364,19 @@ example :
     let pre := [Rec.config 0 cfg 32400000000 false, .jump 33000000000 1800000000]
     accepts p (pre ++ [.probe 36300000000 0 false]) = true ∧
     accepts p (pre ++ [.probe 38500000000 0 false]) = false := by
+  decide
+
+/-- the 10:00 wake-up is delayed by 8 ms (injected): the recalculation 8 ms after 10:00 is accepted, a
+    probe inside the window is not judged, but the NEXT boundary (11:00) must again be served within
+    5 ms – a recalculation 8 ms after 11:00 is rejected, one 0.3 ms after it accepted -/
+example :
+    let p : Params := { cal := toyCal, lam := 5000, bound := 3600005000 }
+    let cfg : Cfg := .timedate ⟨some [(36000000000, 39600000000)], none, none⟩
+    let pre := [Rec.config 0 cfg 32400000000 false, .late 35999999000 8000, .probe 36000006000 0 false,
+                .recalc 0 36000007002 true, .probe 36000010000 0 true]
+    accepts p pre = true ∧
+    accepts p (pre ++ [.recalc 0 39600008000 false]) = false ∧
+    accepts p (pre ++ [.recalc 0 39600000300 false, .probe 39600010000 0 false]) = true := by
   decide
 
 end Edzed.Cron
